@@ -209,7 +209,12 @@ def check_c17(out: Outcome):
                        "every field kind (scalar, bool, array, non-contiguous, enum, signed, Option<enum> array) x access in r/w/rw/none")
     _report_inv(out, "C17", failures)
     # frame half: read-only bits cannot be changed -- the put_spec frame of every mutating function of these declarations
-    run_x(out, progs, "C17", tag="C17x", history=False)
+    try:
+        run_x(out, progs, "C17", tag="C17x", history=False)
+    except xrun.Infra as e:
+        if not out.violations:
+            raise
+        out.notes.append("the frame proofs could not be built on this tree (the API differs from the declaration table, see the violations): " + str(e)[:300])
     from . import meta
     meta.add_obligations(out, "C17")
     return finish(out, "translation_validation", RUSTC_CMD + "; annotator inventory; frame: " + C_KANI,
